@@ -187,29 +187,76 @@ macro_rules! build_plain {
 
 /// The same contents built through a route that re-uses a previously used
 /// ("dirty") object: equal text must still mean ==, equal Hash and cmp Equal.
-fn reuse_route(ty: usize, c: &Content) -> Option<Content> {
-    // returns Some(content) when the route is applicable (the content is unchanged by construction)
+/// number of re-use routes available for a type
+fn n_routes(ty: usize) -> usize {
     match ty {
-        0 | 2 => Some(c.clone()),                       // long -> try_into_mut_short(dirty short)
-        1 | 3 if c.2.len() <= 32 => Some(c.clone()),    // short -> into_mut_long_form(dirty long)
-        4 | 5 => Some(c.clone()),                       // dual: init_from_raw_form on a dirty dual
-        _ => None,
+        0 => 3, // successful narrowing into a dirty short; failed narrowing into the object; dual expansion into a dirty raw
+        1 => 2, // widening into a dirty long; dual expansion into a dirty long raw
+        2 => 2, // successful narrowing; failed narrowing into the object
+        3 => 1, // widening into a dirty long
+        _ => 2, // init_from_raw_form on two kinds of dirty duals
     }
 }
-fn build_reused_rs(c: &Content) -> RawFuzzyHash {
-    let mut d = RawFuzzyHash::new_from_internals_near_raw(30, &[63; 64], &[63; 32]);
-    LongRawFuzzyHash::new_from_internals_near_raw(c.0, &c.1, &c.2).try_into_mut_short(&mut d).unwrap();
-    d
+fn reuse_route(ty: usize, c: &Content) -> Option<Content> {
+    match ty {
+        1 | 3 if c.2.len() > 32 => None,
+        _ => Some(c.clone()),
+    }
 }
-fn build_reused_rl(c: &Content) -> LongRawFuzzyHash {
-    let mut d = LongRawFuzzyHash::new_from_internals_near_raw(30, &[63; 64], &[63; 64]);
-    RawFuzzyHash::new_from_internals_near_raw(c.0, &c.1, &c.2).into_mut_long_form(&mut d);
-    d
+/// a long hash whose block hash 2 does not fit the short form (its block hash 1 is long and "late" in the order)
+fn too_long_for_short() -> (u8, Vec<u8>, Vec<u8>) {
+    (30, ramp(64, 7), ramp(40, 3))
 }
-fn build_reused_ns(c: &Content) -> FuzzyHash {
-    let mut d = FuzzyHash::new_from_internals_near_raw(30, &ramp(64, 3), &ramp(32, 9));
-    LongFuzzyHash::new_from_internals_near_raw(c.0, &c.1, &c.2).try_into_mut_short(&mut d).unwrap();
-    d
+fn build_reused_rs(c: &Content, route: usize) -> RawFuzzyHash {
+    match route {
+        1 => {
+            let mut d = RawFuzzyHash::new_from_internals_near_raw(30, &[63; 64], &[63; 32]);
+            LongRawFuzzyHash::new_from_internals_near_raw(c.0, &c.1, &c.2).try_into_mut_short(&mut d).unwrap();
+            d
+        }
+        2 => {
+            let mut d = RawFuzzyHash::new_from_internals_near_raw(c.0, &c.1, &c.2);
+            let big = too_long_for_short();
+            let r = LongRawFuzzyHash::new_from_internals_near_raw(big.0, &big.1, &big.2).try_into_mut_short(&mut d);
+            assert!(r.is_err());
+            d
+        }
+        _ => {
+            let mut d = RawFuzzyHash::new_from_internals_near_raw(30, &ramp(64, 9), &ramp(32, 9));
+            DualFuzzyHash::new_from_internals_near_raw(c.0, &c.1, &c.2).into_mut_raw_form(&mut d);
+            d
+        }
+    }
+}
+fn build_reused_rl(c: &Content, route: usize) -> LongRawFuzzyHash {
+    match route {
+        1 if c.2.len() <= 32 => {
+            let mut d = LongRawFuzzyHash::new_from_internals_near_raw(30, &[63; 64], &[63; 64]);
+            RawFuzzyHash::new_from_internals_near_raw(c.0, &c.1, &c.2).into_mut_long_form(&mut d);
+            d
+        }
+        _ => {
+            let mut d = LongRawFuzzyHash::new_from_internals_near_raw(30, &ramp(64, 9), &ramp(64, 9));
+            LongDualFuzzyHash::new_from_internals_near_raw(c.0, &c.1, &c.2).into_mut_raw_form(&mut d);
+            d
+        }
+    }
+}
+fn build_reused_ns(c: &Content, route: usize) -> FuzzyHash {
+    match route {
+        1 => {
+            let mut d = FuzzyHash::new_from_internals_near_raw(30, &ramp(64, 3), &ramp(32, 9));
+            LongFuzzyHash::new_from_internals_near_raw(c.0, &c.1, &c.2).try_into_mut_short(&mut d).unwrap();
+            d
+        }
+        _ => {
+            let mut d = FuzzyHash::new_from_internals_near_raw(c.0, &c.1, &c.2);
+            let big = too_long_for_short();
+            let r = LongFuzzyHash::new_from_internals_near_raw(big.0, &big.1, &big.2).try_into_mut_short(&mut d);
+            assert!(r.is_err());
+            d
+        }
+    }
 }
 fn build_reused_nl(c: &Content) -> LongFuzzyHash {
     let mut d = LongFuzzyHash::new_from_internals_near_raw(30, &ramp(64, 3), &ramp(64, 9));
@@ -267,9 +314,9 @@ fn with_objects<R>(ty: usize, contents: &[Content], routes: &[usize], f: &mut dy
     let route_of = |i: usize| -> usize { routes[i] };
     let _ = build_plain!(RawFuzzyHash, &contents[..0]);
     match ty {
-        0 => go!((0..contents.len()).map(|i| if route_of(i) == 0 { RawFuzzyHash::new_from_internals_near_raw(contents[i].0, &contents[i].1, &contents[i].2) } else { build_reused_rs(&contents[i]) }).collect::<Vec<_>>()),
-        1 => go!((0..contents.len()).map(|i| if route_of(i) == 0 { LongRawFuzzyHash::new_from_internals_near_raw(contents[i].0, &contents[i].1, &contents[i].2) } else { build_reused_rl(&contents[i]) }).collect::<Vec<_>>()),
-        2 => go!((0..contents.len()).map(|i| if route_of(i) == 0 { FuzzyHash::new_from_internals_near_raw(contents[i].0, &contents[i].1, &contents[i].2) } else { build_reused_ns(&contents[i]) }).collect::<Vec<_>>()),
+        0 => go!((0..contents.len()).map(|i| if route_of(i) == 0 { RawFuzzyHash::new_from_internals_near_raw(contents[i].0, &contents[i].1, &contents[i].2) } else { build_reused_rs(&contents[i], route_of(i)) }).collect::<Vec<_>>()),
+        1 => go!((0..contents.len()).map(|i| if route_of(i) == 0 { LongRawFuzzyHash::new_from_internals_near_raw(contents[i].0, &contents[i].1, &contents[i].2) } else { build_reused_rl(&contents[i], route_of(i)) }).collect::<Vec<_>>()),
+        2 => go!((0..contents.len()).map(|i| if route_of(i) == 0 { FuzzyHash::new_from_internals_near_raw(contents[i].0, &contents[i].1, &contents[i].2) } else { build_reused_ns(&contents[i], route_of(i)) }).collect::<Vec<_>>()),
         3 => go!((0..contents.len()).map(|i| if route_of(i) == 0 { LongFuzzyHash::new_from_internals_near_raw(contents[i].0, &contents[i].1, &contents[i].2) } else { build_reused_nl(&contents[i]) }).collect::<Vec<_>>()),
         4 => go!((0..contents.len()).map(|i| match route_of(i) { 0 => DualFuzzyHash::new_from_internals_near_raw(contents[i].0, &contents[i].1, &contents[i].2), r => build_reused_ds(&contents[i], r - 1) }).collect::<Vec<_>>()),
         _ => go!((0..contents.len()).map(|i| match route_of(i) { 0 => LongDualFuzzyHash::new_from_internals_near_raw(contents[i].0, &contents[i].1, &contents[i].2), r => build_reused_dl(&contents[i], r - 1) }).collect::<Vec<_>>()),
@@ -365,9 +412,9 @@ pub fn run(ctx: &Ctx) -> Report {
             let mut c = if ty < 4 { plain_contents(cap2, ty >= 2, thorough) } else { dual_contents(cap2) };
             // every applicable content a second time (duals: a third time), to be built through the re-use routes
             let dup: Vec<Content> = c.iter().filter_map(|x| reuse_route(ty, x)).step_by(if ty < 4 { 3 } else { 1 }).collect();
-            c.extend(dup.iter().cloned());
-            if ty >= 4 {
-                c.extend(dup.into_iter().step_by(2));
+            for r in 0..n_routes(ty) {
+                // route r+1 for every (r+1)-th duplicate-able content (route k needs k earlier copies)
+                c.extend(dup.iter().step_by(r + 1).cloned());
             }
             (ty, c)
         })
@@ -452,7 +499,7 @@ pub fn run(ctx: &Ctx) -> Report {
     rep.set("exhaustive", true);
     rep.set(
         "rule",
-        "per type a corpus of objects built to stress the order (block hashes differing only by trailing symbol-0 characters, proper prefixes, first difference 0 / 1 / 63, lengths near 0 and the capacity, three block sizes; a third of the objects a second time built through a route that re-uses a dirty destination (into_mut_long_form / try_into_mut_short into a previously used object; for duals init_from_raw_form on two kinds of previously used objects); dual hashes in groups sharing a normalized part with different raw runs in block hash 1 only / 2 only / both): ALL ordered pairs (== <=> equal text, equal => equal Hash stream, cmp antisymmetric, Equal <=> ==, operators consistent, cmp == documented order; duals with different normalized parts order as those parts) and ALL triples of the corpus (thorough) or of a strided sub-corpus (quick) for transitivity on the library's own cmp results; sorting two permutations.  Pairs / triples are distinct by construction.",
+        "per type a corpus of objects built to stress the order (block hashes differing only by trailing symbol-0 characters, proper prefixes, first difference 0 / 1 / 63, lengths near 0 and the capacity, three block sizes; a third of the objects a second time built through a route that re-uses a dirty destination (into_mut_long_form / try_into_mut_short into a previously used object; a *failed* narrowing attempted into the object; dual expansion into_mut_raw_form into a previously used raw object; for duals init_from_raw_form on two kinds of previously used objects); dual hashes in groups sharing a normalized part with different raw runs in block hash 1 only / 2 only / both): ALL ordered pairs (== <=> equal text, equal => equal Hash stream, cmp antisymmetric, Equal <=> ==, operators consistent, cmp == documented order; duals with different normalized parts order as those parts) and ALL triples of the corpus (thorough) or of a strided sub-corpus (quick) for transitivity on the library's own cmp results; sorting two permutations.  Pairs / triples are distinct by construction.",
     );
     rep
 }
